@@ -1,10 +1,10 @@
 package main
 
 import (
-	"go/token"
-	"sort"
 	"fmt"
+	"go/token"
 	"go/types"
+	"sort"
 	"strings"
 
 	"golang.org/x/tools/go/ssa"
@@ -33,14 +33,18 @@ func runC07(c *Ctx) {
 		return
 	}
 	tf := fx.retFacts(recl, 0, WantTrue, 0)
-	_, a := hasFact(tf, func(f Fact) bool { return f.Pol && f.T.Op == "extract" && f.T.Name == "0" && f.T.Args[0].isCallTo(fromVictims) })
+	_, a := hasFact(tf, func(f Fact) bool {
+		return f.Pol && f.T.Op == "extract" && f.T.Name == "0" && f.T.Args[0].isCallTo(fromVictims)
+	})
 	_, b := hasFact(tf, func(f Fact) bool { return f.Pol && f.T.isCallTo(bounds) })
 	c.Check(a, "O1", "RET", funcKey(recl)+": true ⇒ every victim fits a strategy", recl.Pos(), "reclaimResourcesFromReclaimees succeeded", "a reclaim scenario can be accepted although the victims do not fit a reclaim strategy")
 	c.Check(b, "O1", "RET", funcKey(recl)+": true ⇒ boundaries hold", recl.Pos(), "reclaimingQueuesRemainWithinBoundaries", "a reclaim scenario can be accepted although the reclaiming queues leave their boundaries")
 	// the validator registered by proportion evaluates Reclaimable on the per-attempt clone
 	if rf := c.Anchor("O1", pkgProportion, "proportionPlugin", "reclaimableFn"); rf != nil {
 		tfr := fx.retFacts(rf, 0, WantTrue, 0)
-		d, ok := hasFact(tfr, func(f Fact) bool { return f.Pol && f.T.isCallTo(recl) && strings.HasSuffix(f.T.Args[1].String(), ".jobSimulationQueues") })
+		d, ok := hasFact(tfr, func(f Fact) bool {
+			return f.Pol && f.T.isCallTo(recl) && strings.HasSuffix(f.T.Args[1].String(), ".jobSimulationQueues")
+		})
 		c.Check(ok, "O1", "RET", funcKey(rf)+": true ⇒ Reclaimable(jobSimulationQueues, ...)", rf.Pos(), trunc(d, 160), "the reclaim scenario validator does not evaluate Reclaimable on the per-attempt queue snapshot")
 	}
 
@@ -76,7 +80,9 @@ func runC07(c *Ctx) {
 		for _, call := range instrsIn(fromVictims, isCallToFn(fits)) {
 			args := call.(ssa.CallInstruction).Common().Args
 			t := termOf(args[3])
-			ok := t.contains(func(x *Term) bool { return x.Op == "lookup" && strings.Contains(x.Args[1].String(), levelName) && strings.HasSuffix(x.Args[1].String(), ".UID") })
+			ok := t.contains(func(x *Term) bool {
+				return x.Op == "lookup" && strings.Contains(x.Args[1].String(), levelName) && strings.HasSuffix(x.Args[1].String(), ".UID")
+			})
 			c.Check(ok, "O2", "PROV", funcKey(fromVictims)+": strategy evaluated on the remaining share of the queue at the divergence level", instrPos(call), trunc(t.String(), 160), "FitsReclaimStrategy is not given the remaining share of the reclaimee queue at the level where it diverges from the reclaimer")
 			q := termOf(args[2])
 			c.Check(strings.Contains(q.String(), levelName), "O2", "PROV", funcKey(fromVictims)+": strategy evaluated against the leveled reclaimee queue", instrPos(call), trunc(q.String(), 120), "FitsReclaimStrategy is not given the reclaimee queue at the divergence level")
@@ -214,9 +220,13 @@ func runC07(c *Ctx) {
 	if can := c.Anchor("O4", pkgReclaimable, "Reclaimable", "CanReclaimResources"); can != nil {
 		paths := fx.retPaths(can, 0, WantTrue)
 		for i, rp := range paths {
-			_, fair := hasFact(rp.Facts, func(f Fact) bool { return f.Pol && isCallNamed(f.T, "LessEqual") && isCallNamed(f.T.Args[1], "GetFairShare") && isCallNamed(f.T.Args[0], "GetAllocatedShare") })
+			_, fair := hasFact(rp.Facts, func(f Fact) bool {
+				return f.Pol && isCallNamed(f.T, "LessEqual") && isCallNamed(f.T.Args[1], "GetFairShare") && isCallNamed(f.T.Args[0], "GetAllocatedShare")
+			})
 			_, pre := hasFact(rp.Facts, func(f Fact) bool { return f.Pol && f.T.lastField() == "IsPreemptable" })
-			_, quota := hasFact(rp.Facts, func(f Fact) bool { return f.Pol && isCallNamed(f.T, "LessEqual") && isCallNamed(f.T.Args[1], "GetDeservedShare") && isCallNamed(f.T.Args[0], "GetAllocatedNonPreemptible") })
+			_, quota := hasFact(rp.Facts, func(f Fact) bool {
+				return f.Pol && isCallNamed(f.T, "LessEqual") && isCallNamed(f.T.Args[1], "GetDeservedShare") && isCallNamed(f.T.Args[0], "GetAllocatedNonPreemptible")
+			})
 			c.Check(fair, "O4", "RET", fmt.Sprintf("%s true path#%d: within fair share", funcKey(can), i), rp.Pos, "allocated+request ≤ fair share", "a queue may reclaim although allocated+request exceeds its fair share")
 			c.Check(pre || quota, "O4", "RET", fmt.Sprintf("%s true path#%d: non-preemptible within deserved", funcKey(can), i), rp.Pos, "preemptible, or non-preemptible+request ≤ deserved", "a non-preemptible reclaimer may reclaim although its queue's non-preemptible allocation would exceed deserved quota")
 		}
@@ -390,7 +400,9 @@ func runC07(c *Ctx) {
 			_, gt1 := hasFact(rp.Facts, func(f Fact) bool {
 				return f.Pol && f.T.Op == "bin" && f.T.Name == "<" && f.T.Args[0].String() == "const:1" && isCallNamed(f.T.Args[1], "fairShareSaturationRatio")
 			})
-			_, sibPos := hasFact(rp.Facts, func(f Fact) bool { return f.Pol && f.T.Op == "bin" && f.T.Name == "<" && f.T.Args[0].String() == "const:0" })
+			_, sibPos := hasFact(rp.Facts, func(f Fact) bool {
+				return f.Pol && f.T.Op == "bin" && f.T.Name == "<" && f.T.Args[0].String() == "const:0"
+			})
 			_, ge := hasFact(rp.Facts, func(f Fact) bool {
 				// ratioSibling <= ratioReclaimer * multiplier   (>= normalised to <= with swapped operands)
 				if !f.Pol || f.T.Op != "bin" || f.T.Name != "<=" {
